@@ -36,35 +36,44 @@ def r1_transparent(R) -> None:
         if not R.require(q, len(calls), f'super().{m}(...)', fi=f.fi,
                          pred=lambda x, m=m: isinstance(x, ast.Call) and any(isinstance(y, ast.Call) and isinstance(y.func, ast.Name) and y.func.id == 'super' for y in ast.walk(x))):
             continue
-        R.check(len(calls) == 1, q, 'one-super-call', 'the base method is called once', f'{len(calls)} calls of super().{m}()', where=f.where(calls[0]))
-        n = calls[0]
-        c = [x for x in ast.walk(n.ast) if is_super_call(x, m)][0]
-        R.count_calls()
-        # on every path entry -> exit
-        ok = n.id not in f.cfg.reachable_from(f.cfg.entry, avoid=[n.id]) and f.cfg.exit not in f.cfg.reachable_from(f.cfg.entry, avoid=[n.id])
+        # exactly one base call on every path: the call sites are alternatives (none can follow another) and together they
+        # cut every path from entry to exit
+        ids = [n_.id for n_ in calls]
+        twice = [(a_, b_) for a_ in calls for b_ in calls if a_ is not b_ and b_.id in f.cfg.reachable_from(a_.id, avoid=[]) and b_.id != a_.id and f.cfg.reaches(a_.id, b_.id)]
+        R.check(not twice, q, 'one-super-call', 'the base method is called once on any path',
+                f'{len(calls)} calls of super().{m}(), and one can follow another on the same path', where=f.where(calls[0]), decided=True)
+        ok = f.cfg.exit not in f.cfg.reachable_from(f.cfg.entry, avoid=ids)
         R.check(ok, q, 'super-on-every-path', 'every path through the wrapper calls the base method', f'some path returns without calling super().{m}()',
-                where=f.where(n))
-        R.check(not n.loops, q, 'super-not-in-loop', 'exactly once', 'the base call is inside a loop', where=f.where(n))
-        R.check(not n.trys and not any(isinstance(x, ast.Try) for x in ast.walk(f.fi.node)), q, 'no-try', 'exceptions of the base method propagate unchanged',
-                f'super().{m}() is wrapped in a try block', where=f.where(n))
-        # identity forwarding
-        ok_t = c.args and text(c.args[0]) == 't' and has_star_args(c, 'args')
-        R.check(ok_t, q, 'forward-positional', 't and *args forwarded', f'`{text(c)[:70]}` does not pass t, *args', where=f.where(n))
-        for o in ['trace', 'reset'] + (['iteration'] if spec['iteration'] else []):
-            v = kwarg(c, o)
-            R.check(isinstance(v, ast.Name) and v.id == o, q, f'forward:{o}', f'{o} forwarded unchanged',
-                    f'`{o}` is {"not forwarded" if v is None else "forwarded as " + text(v)} to super().{m}()', where=f.where(n))
-        R.check(has_star_kwargs(c, 'kwargs'), q, 'forward-kwargs', '**kwargs forwarded', '**kwargs not forwarded', where=f.where(n))
-        extra = {k.arg for k in c.keywords if k.arg} - {'trace', 'reset', 'iteration'}
-        R.check(not extra, q, f'forward-extra:{sorted(extra)}', 'no additional keyword injected', f'extra keywords {sorted(extra)} injected into the base call', where=f.where(n))
+                where=f.where(calls[0]), decided=True)
+        for n in calls:
+            c = [x for x in ast.walk(n.ast) if is_super_call(x, m)][0]
+            R.count_calls()
+            R.check(not n.loops, q, 'super-not-in-loop', 'exactly once', 'the base call is inside a loop', where=f.where(n))
+            R.check(not n.trys and not any(isinstance(x, ast.Try) for x in ast.walk(f.fi.node)), q, 'no-try', 'exceptions of the base method propagate unchanged',
+                    f'super().{m}() is wrapped in a try block', where=f.where(n))
+            # identity forwarding
+            ok_t = c.args and text(c.args[0]) == 't' and has_star_args(c, 'args')
+            R.check(ok_t, q, 'forward-positional', 't and *args forwarded', f'`{text(c)[:70]}` does not pass t, *args', where=f.where(n))
+            for o in ['trace', 'reset'] + (['iteration'] if spec['iteration'] else []):
+                v = kwarg(c, o)
+                R.check(isinstance(v, ast.Name) and v.id == o, q, f'forward:{o}', f'{o} forwarded unchanged',
+                        f'`{o}` is {"not forwarded" if v is None else "forwarded as " + text(v)} to super().{m}()', where=f.where(n))
+            R.check(has_star_kwargs(c, 'kwargs'), q, 'forward-kwargs', '**kwargs forwarded', '**kwargs not forwarded', where=f.where(n))
+            extra = {k.arg for k in c.keywords if k.arg} - {'trace', 'reset', 'iteration'}
+            R.check(not extra, q, f'forward-extra:{sorted(extra)}', 'no additional keyword injected', f'extra keywords {sorted(extra)} injected into the base call', where=f.where(n))
         if spec['returns']:
+            # every return hands back the result of the base call made on its path
             rets = f.returns()
-            ok = len(rets) == 1 and rets[0].ast.value is c
-            if not ok and len(rets) == 1 and isinstance(rets[0].ast.value, ast.Name):
-                # `x = super().m(...); return x`: the local's only definition is the base call
-                vals = f.lf.values_reaching(rets[0].id, rets[0].ast.value.id)
-                ok = len(vals) == 1 and vals[0][1] is c and rets[0].ast.value.id not in f.mutated_in_place()
-            R.check(ok, q, 'returns-base', 'the base result is returned as is', f'solve_t does not `return super().{m}(...)`', where=f.fi.where)
+            all_ok = bool(rets)
+            for r_ in rets:
+                v_ = r_.ast.value
+                ok = any(v_ is [x for x in ast.walk(n.ast) if is_super_call(x, m)][0] for n in calls)
+                if not ok and isinstance(v_, ast.Name):
+                    # `x = super().m(...); return x`: every definition reaching the return is a base call
+                    vals = f.lf.values_reaching(r_.id, v_.id)
+                    ok = bool(vals) and all(dv is not None and is_super_call(dv, m) for (_s, dv) in vals) and v_.id not in f.mutated_in_place()
+                all_ok = all_ok and ok
+            R.check(all_ok, q, 'returns-base', 'the base result is returned as is', f'solve_t does not `return super().{m}(...)`', where=f.fi.where)
         else:
             rets = [r for r in f.returns() if r.ast.value is not None]
             R.check(not rets, q, 'returns-none', 'hook wrappers return nothing', 'a hook wrapper returns a value', where=f.fi.where)
@@ -220,13 +229,15 @@ def r5_trace_names(R) -> None:
     for (facts, leaf) in leaves(v):
         fx = [(text(a_), tr) for (a_, tr) in facts]
         raw = text(leaf) in ('trace', 'list(trace)', 'tuple(trace)')
-        if raw and ('isinstance(trace, str)', False) not in fx:
+        # any fact that rules a str out, however it is spelt: isinstance(trace, str) / isinstance(trace, (str, bytes)) / type(trace) is str, false
+        not_str = any((not tr) and 'trace' in a_ and 'str' in a_ and (a_.startswith('isinstance(trace,') or a_.startswith('type(trace)')) for (a_, tr) in fx)
+        if raw and not not_str:
             bad.append((fx, text(leaf)))
         if text(leaf) in ('[trace]', '(trace,)', 'list([trace])') and ('isinstance(trace, str)', True) in fx:
             single = True
     R.check(not bad, q, 'names-sequence-not-str', 'the argument is used as the sequence of names only when it is not a str',
             f'the traced names are `{bad[0][1] if bad else ""}` under {bad[0][0] if bad else ""}: a single name given as a str (trace=\'YD\') is iterated character by character',
-            where=f.where(n))
+            where=f.where(n), decided=True)       # the leaves were computed path by path: the argument itself reaches the loop on a path that has not ruled a str out
     R.check(single, q, 'names-single-str', 'a str names exactly that one variable', 'no `[trace]` for a str argument', where=f.where(n))
 
 
@@ -244,15 +255,20 @@ def r4_label_order(R) -> None:
         if not base:
             R.inconclusive(q, 'base call not found')
             continue
-        b = base[0]
         got = []
         for n in f.nodes_with(lambda x: is_self_call(x, 'trace_t')):
             c = [x for x in ast.walk(n.ast) if is_self_call(x, 'trace_t')][0]
             lab = text(c.args[1]) if len(c.args) > 1 else '?'
-            if n.id in f.dom[b.id] or f.cfg.reaches(n.id, b.id):
+            # relative to the base call(s) on the same path (a base call on another branch - tracing off - does not count)
+            same_path = [b_ for b_ in base if f.cfg.reaches(n.id, b_.id) or f.cfg.reaches(b_.id, n.id)]
+            if not same_path:
+                rel = 'no-base-call-on-its-path'
+            elif all(f.cfg.reaches(n.id, b_.id) and not f.cfg.reaches(b_.id, n.id) for b_ in same_path):
                 rel = 'before'
-            else:
+            elif all(f.cfg.reaches(b_.id, n.id) and not f.cfg.reaches(n.id, b_.id) for b_ in same_path):
                 rel = 'after'
+            else:
+                rel = 'mixed'
             got.append((lab, rel))
             R.check(c.args and text(c.args[0]) == 't', q, f'trace-period:{lab}', 'the snapshot is taken for period t', f'trace_t is given `{text(c.args[0]) if c.args else "?"}`',
                     where=f.where(n))
